@@ -354,3 +354,16 @@ Proof.
     lia.
   - fold d in Hd. change (N.of_nat 64) with 64 in Hd. lia.
 Qed.
+
+(* rounding half-even stays within half a unit *)
+Lemma rhe_bounds_aux v p : p <> 0 -> 2 * p * rhe v p <= 2 * v + p /\ 2 * v <= 2 * p * rhe v p + p.
+Proof.
+  intros Hp. unfold rhe. cbv zeta.
+  pose proof (N.div_mod v p Hp) as E. pose proof (N.mod_lt v p Hp) as L.
+  set (q := v / p) in *. set (r := v mod p) in *.
+  destruct (N.ltb_spec p (2 * r)); cbn [orb].
+  - nia.
+  - destruct ((2 * r =? p) && N.odd q) eqn:T.
+    + apply andb_prop in T as [T _]. apply N.eqb_eq in T. nia.
+    + nia.
+Qed.
